@@ -77,27 +77,40 @@ Proof. vm_compute. reflexivity. Qed.
 Example ex_guards : g_final_obj_eq_last ex_g = true.
 Proof. vm_compute. reflexivity. Qed.
 
-Example ex_ofv_designated :
-  exists t entries,
-    design_of t = None /\ ext_data_frame (tb_frame t) = ROk ex_g /\
-    parse_ofv [t] = ROk (CNum (-58627605628188053 # 100000000000000), entries) /\ length entries = 2%nat.
-Proof.
-  exists (mkTable (Some (mkTitle 1 false None))
-            (match read_frame (render_body ex_ext) with ROk f => f | _ => mkFrame [] [] end)).
-  eexists. split; [reflexivity|]. split; [vm_compute; reflexivity|]. split; vm_compute; reflexivity.
-Qed.
+(* two estimation tables followed by an optimal-design table: the second one decides *)
+Definition ex_frame0 : frame := match read_frame (render_body ex_ext) with ROk f => f | _ => mkFrame [] [] end.
+Definition ex_tbl (k : N) (design : option text) : table :=
+  mkTable (Some (mkTitle k false (Some ([70], design, None, [1;0;0;0;0;0])))) ex_frame0.
+Definition ex_tables : list table :=
+  [mkTable (Some (mkTitle 1 false (Some ([70], None, None, [1;0;0;0;0;0])))) bayes_frame; ex_tbl 2 None; ex_tbl 3 (Some [68])].
 
-(* pe_designated on the same table: SIGMA(1,1) is fixed (row -1000000006) and dropped, the others are renamed *)
+Example ex_ofv_designated :
+  last_opt (est_tables ex_tables) = Some (2%nat, ex_tbl 2 None) /\ ext_data_frame (tb_frame (ex_tbl 2 None)) = ROk ex_g /\
+  exists entries, parse_ofv ex_tables = ROk (CNum (-58627605628188053 # 100000000000000), entries) /\ length entries = 6%nat.
+Proof. split; [reflexivity|]. split; [vm_compute; reflexivity|]. eexists. split; vm_compute; reflexivity. Qed.
+
+(* pe_designated on ex_tables is outside its "same columns in every table" domain (bayes_frame has other
+   columns); on the two-table file [ex_tbl 1; ex_tbl 2]: SIGMA(1,1) is fixed (row -1000000006) and dropped *)
 Example ex_pe_designated :
-  exists t cols rows sd,
-    design_of t = None /\ ext_data_frame (tb_frame t) = ROk ex_g /\
-    parse_parameter_estimates [t] [] [(s_THETA ++ [40;49;41], [80;79;80;95;67;76])] =
-    ROk ([([80;79;80;95;67;76], CNum (1834 # 390625)); (s_OMEGA ++ [40;49;44;49;41], CNum (-292247 # 10000000))], cols, rows, sd).
-Proof.
-  exists (mkTable (Some (mkTitle 1 false None))
-            (match read_frame (render_body ex_ext) with ROk f => f | _ => mkFrame [] [] end)).
-  eexists. eexists. eexists. split; [reflexivity|]. split; vm_compute; reflexivity.
-Qed.
+  exists cols rows sd,
+    parse_parameter_estimates [ex_tbl 1 None; ex_tbl 2 None] [] [(s_THETA ++ [40;49;41], [80;79;80;95;67;76])] =
+    ROk ([([80;79;80;95;67;76], CNum (1834 # 390625)); (s_OMEGA ++ [40;49;44;49;41], CNum (-292247 # 10000000))], cols, rows, sd) /\
+    length rows = 4%nat.
+Proof. eexists. eexists. eexists. split; vm_compute; reflexivity. Qed.
+
+(* se_designated: ex_g has row -1000000001 but not -1000000005 (third case); with both rows (first case) *)
+Example ex_se_abort : parse_standard_errors ex_tables [] [] = ROk (None, None, true).
+Proof. vm_compute. reflexivity. Qed.
+
+Definition ex_g_sd : frame :=
+  mkFrame (f_cols ex_g) (f_rows ex_g ++ [(9%nat, [CNum (-1000000005 # 1); CNum 0; CNum (1 # 100); CNum (1 # 10); CNum 0])]).
+Example ex_se_designated :
+  exists ses sesd, parse_standard_errors [mkTable (Some (mkTitle 1 false None))
+                                            (mkFrame (f_cols ex_frame0) (f_rows ex_frame0 ++ [(9%nat, [CNum (-1000000005 # 1); CNum 0; CNum (1 # 10); CNum (1 # 100); CNum 0])]))]
+                                         [] [] = ROk (Some ses, Some sesd, false) /\
+                   map fst ses = [s_THETA ++ [40;49;41]; s_OMEGA ++ [40;49;44;49;41]] /\
+                   map snd sesd = [CNum (21 # 100000); CNum (1 # 100)].
+Proof. eexists. eexists. split; [vm_compute; reflexivity|]. split; vm_compute; reflexivity. Qed.
 
 (* ---- whole files: hypotheses of parse_render / parse_title_render / obj_renaming_only ---- *)
 Definition ex_title (k : list nat) (design goal : option text) : wtitle :=
@@ -151,6 +164,34 @@ Example ex_final_only :
   [(0%nat, CNum 0)].
 Proof. repeat split; vm_compute; reflexivity. Qed.
 
+(* matrix_designated / phi_designated: a cov and a phi file rendered by the reference writer, read at run level *)
+Definition ex_cov_w : wtable :=
+  mkWTable (Some (ex_title [2]%nat None None)) [s_NAME; s_THETA1; [84;72;69;84;65;50]; s_SIGMA11]
+    [[WStr s_THETA1; sci false [4;0;0;0;0;0]%nat false [0;0]%nat; sci false [0;0;0;0;0;0]%nat false [0;0]%nat; sci true [1;0;0;0;0;0]%nat false [0;0]%nat];
+     [WStr [84;72;69;84;65;50]; sci false [0;0;0;0;0;0]%nat false [0;0]%nat; sci false [0;0;0;0;0;0]%nat false [0;0]%nat; sci false [0;0;0;0;0;0]%nat false [0;0]%nat];
+     [WStr s_SIGMA11; sci true [1;0;0;0;0;0]%nat false [0;0]%nat; sci false [0;0;0;0;0;0]%nat false [0;0]%nat; sci false [9;0;0;0;0;0]%nat false [0;0]%nat]]
+    false 0 true.
+Example ex_matrix_designated :
+  wfile_ok SCov false [ex_cov_w] = true /\
+  parse_matrix (Some (render_wfile [ex_cov_w])) [(s_THETA ++ [40;49;41], [80;79;80])] [1; 2] =
+  ROk (Some (mkMatrix [[80;79;80]; s_SIGMA11] [[80;79;80]; s_SIGMA11] [[CNum 4; CNum (-1)]; [CNum (-1); CNum 9]])).
+Proof. split; vm_compute; reflexivity. Qed.
+
+Definition ex_phi_w : wtable :=
+  mkWTable (Some (ex_title [1]%nat None None))
+    [[83;85;66;74;69;67;84;95;78;79]; s_ID; [69;84;65;40;49;41]; [69;84;65;40;50;41]; [69;84;67;40;49;44;49;41]; [69;84;67;40;50;44;49;41]; [69;84;67;40;50;44;50;41]; s_OBJ]
+    [[int false [1]%nat; int false [1;1]%nat; sci true [1;0;0;0;0;0]%nat true [0;1]%nat; sci false [2;0;0;0;0;0]%nat true [0;1]%nat;
+      sci false [4;0;0;0;0;0]%nat true [0;2]%nat; sci true [1;0;0;0;0;0]%nat true [0;2]%nat; sci false [9;0;0;0;0;0]%nat true [0;2]%nat; obj false [5]%nat [2;5]%nat];
+     [int false [2]%nat; int false [1;2]%nat; sci false [0;0;0;0;0;0]%nat false [0;0]%nat; sci false [0;0;0;0;0;0]%nat false [0;0]%nat;
+      sci false [0;0;0;0;0;0]%nat false [0;0]%nat; sci false [0;0;0;0;0;0]%nat false [0;0]%nat; sci false [0;0;0;0;0;0]%nat false [0;0]%nat; obj false [0]%nat [0]%nat]]
+    true 0 true.
+Example ex_phi_designated :
+  wfile_ok SPhi false [ex_phi_w] = true /\
+  parse_phi (Some (render_wfile [ex_phi_w])) [([69;84;65;40;49;41], [69;84;65;95;49]); ([69;84;65;40;50;41], [69;84;65;95;50])] [[69;84;65;95;50]; [69;84;65;95;49]] =
+  ROk (Some (mkPhiRes [CNum 11] [CNum (21 # 4)] [[69;84;65;95;50]; [69;84;65;95;49]] [[CNum (-1 # 10); CNum (1 # 5)]]
+                      [[[CNum (9 # 100); CNum (-1 # 100)]; [CNum (-1 # 100); CNum (1 # 25)]]])).
+Proof. split; vm_compute; reflexivity. Qed.
+
 (* ---- tables and lines ---- *)
 Definition two_tables : text := title1 ++ [32;65;10;32;49;10] ++ title1 ++ [32;65;10;32;50;10].
 
@@ -203,3 +244,17 @@ Proof.
   - intros k Hk. destruct k as [|[|k]]; [| |exfalso; lia]; vm_compute; split; reflexivity.
   - vm_compute. reflexivity.
 Qed.
+
+(* ---- .lst: a whole file of two blocks through the tag state machine; guards of parse_render_lst_partial ---- *)
+From Coq Require Import String.
+From PV Require Import C20.Lst.
+Definition ex_b1 : wblock :=
+  mkWBlock (st "1") (st "First Order Conditional Estimation with Interaction") 1 true (Some (st "100"))
+           (Some (st "3", st "3")) (Some (st "0", st "32")) 1.
+Definition ex_b2 : wblock := mkWBlock (st "2") (st "Importance Sampling") 4 false None None (Some (st "12", st "5")) 2.
+Example ex_lst_file :
+  wblock_ok ex_b1 = true /\ wblock_ok ex_b2 = true /\
+  read_lst (render_lst (st "7.5.0") [ex_b1; ex_b2]) [1%N; 2%N] =
+  LstOk (st "7.5.0") [(1%N, facts_of_wblock ex_b1); (2%N, facts_of_wblock ex_b2)] /\
+  read_lst (render_lst (st "7.1.0") [ex_b1]) [1%N] = LstNoVersion.
+Proof. repeat split; vm_compute; reflexivity. Qed.
